@@ -186,23 +186,31 @@ def judge(ctx, p, rng):
                     [list(out), [list((k, repr(v)[:40])) for k, v in calls]],
                     detail="missing=%s text=%r" % (missing, p.text),
                     vsig="missing|%s|%d" % (out[0], bool(calls)))
-    # 4 case-variant duplicates (of a needed or of an unneeded name)
+    # 4 case-variant duplicates (of a needed or of an unneeded name), the
+    # two spellings mapped to callable/callable, None/callable,
+    # callable/None or None/None, in either insertion order
     dup = rng.choice(names + ["unused-extra"])
-    spec = [(n_, "rec") for n_ in names]
-    if dup == "unused-extra":
-        spec.append((dup, "rec"))
-    spec.append((dup.upper(), "rec"))
-    rng.shuffle(spec)
-    calls, out = run("duplicate", spec)
-    res.count("error_maps")
-    res.sig(sigbase + "|dup")
-    if out[0] != "config-error" or calls:
-        res.violate("duplicate-names-not-all-or-nothing",
-                    dict(case, map="duplicate", dup=dup),
-                    ["config-error", []],
-                    [list(out), [list((k, repr(v)[:40])) for k, v in calls]],
-                    detail="dup=%s text=%r" % (dup, p.text),
-                    vsig="dup|%s|%d" % (out[0], bool(calls)))
+    for flavour in (("rec", "rec"), ("none", "rec"), ("rec", "none"),
+                    ("none", "none")):
+        spec = [(n_, "rec") for n_ in names if n_ != dup]
+        pair = [(dup, flavour[0]), (dup.upper(), flavour[1])]
+        if rng.random() < 0.5:
+            spec = pair + spec
+        else:
+            spec = spec + pair
+        calls, out = run("duplicate", spec)
+        res.count("error_maps")
+        res.sig(sigbase + "|dup|" + "/".join(flavour))
+        if out[0] != "config-error" or calls:
+            res.violate("duplicate-names-not-all-or-nothing",
+                        dict(case, map="duplicate", dup=dup,
+                             flavour=list(flavour)),
+                        ["config-error", []],
+                        [list(out), [list((k, repr(v)[:40]))
+                                     for k, v in calls]],
+                        detail="dup=%s %s text=%r" % (dup, flavour, p.text),
+                        vsig="dup|%s|%d|%s" % (out[0], bool(calls),
+                                               "/".join(flavour)))
 
 
 def fault_plan(rng):
